@@ -194,9 +194,7 @@ where
                         && buffered_req.is_none()
                         && buffered_rep.is_none() =>
                 {
-                    // Replies already handed to requestor sinks must still be flushed
-                    ready!(sink.as_mut().poll_flush(cx)).unwrap();
-                    return Poll::Pending;
+                    return Poll::Pending
                 }
                 // Otherwise, move on with running the stream
                 Poll::Pending => (),
